@@ -12,10 +12,10 @@ func init() {
 	prop("C03", []string{"R9", "R10", "R7", "R1s", "R6", "R78"},
 		"(i) the result is a permutation of the frame's rows, each whole: the sorter only exchanges elements of a private copy of the index (R9, R1s, R7); (ii) per type the order table encodes Reverse/NullLast exactly as stated and Compare returns the table entry matching the actual relation and nullness of the two cells (R10); comparisons receive physical positions (R6); Less is the lexicographic composition with null-vs-null ties falling through (R10c).",
 		"that quickSort/doPivot/heapSort/insertionSort arrange the index in non-decreasing order of Less: algorithm correctness over all n and tie structures; a mis-sorting change inside those four functions is NOT detected (it is still a permutation).")
-	prop("C04", []string{"R11", "R12", "R10", "R13", "R17", "R6", "R7", "R8", "R40", "R37", "R38", "R54", "R55", "R1g", "R25", "R72", "R93", "R98", "R99"},
+	prop("C04", []string{"R11", "R12", "R10", "R13", "R17", "R6", "R7", "R8", "R40", "R37", "R38", "R54", "R55", "R1g", "R25", "R72", "R93", "R98", "R99", "R108"},
 		"group indexes contain only rows of the frame (R7) and are private to the call (R1g); an occupied table entry is selected only after equals said so (R11); hash and equality agree incl. signed zeros and NaNs (R12, R10); probe positions are masked by the length of the very table they index (R38); every aggregate value is the aggregation function applied to the group's compact values in frame order, one call per group (R37, R40, R8); result columns are placed consistently and named legally (R13, R17); Columns/Null options are consulted (R25).",
 		"the open-addressing table as an algorithm (that every row is inserted exactly once and found again across growth steps beyond the mask/equality conditions); that sum/min/max/avg/majority compute what their names say.")
-	prop("C05", []string{"R11", "R12", "R10", "R6", "R7", "R8", "R38", "R54", "R55", "R1g", "R25", "R39", "R74", "R76", "R93", "R98", "R99"},
+	prop("C05", []string{"R11", "R12", "R10", "R6", "R7", "R8", "R38", "R54", "R55", "R1g", "R25", "R39", "R74", "R76", "R93", "R98", "R99", "R108"},
 		"returned rows are input rows, unmodified (R7: first positions come from the index; withIndex shares columns; R1g); each occupied table entry contributes exactly once (R8 on the collection loop); entries are distinct keys (R11) and equal keys share a hash (R12, R10); probing is masked by the table's own length (R38); options are consulted (R25); column names are validated before any success return (R39).",
 		"the open-addressing table as an algorithm (same as C04).")
 	prop("C06", []string{"R6", "R42", "R40", "R53", "R13", "R8", "R1a", "R43", "R68", "R82", "R98", "R95", "R107"},
